@@ -1,4 +1,5 @@
-import CoxeterVerif.Lemmas.Winding2D
+import CoxeterVerif.Lemmas.Inside2DParity
+import CoxeterVerif.Lemmas.Inside2DFrame
 /-!
   # C06 — 2-D point containment equals exact membership
 
@@ -359,14 +360,7 @@ example : isInsideRotBatch unitSquare [⟨1/2, 1/3⟩, ⟨3/2, 1/3⟩] =
 
 /-! ### the rotation into the `xy` frame (`kabsch` result as a parameter) -/
 
-/-- `RᵀR = 1` -/
-structure IsOrtho (R : M3 ℝ) : Prop where
-  c11 : R.xx * R.xx + R.yx * R.yx + R.zx * R.zx = 1
-  c22 : R.xy * R.xy + R.yy * R.yy + R.zy * R.zy = 1
-  c33 : R.xz * R.xz + R.yz * R.yz + R.zz * R.zz = 1
-  c12 : R.xx * R.xy + R.yx * R.yy + R.zx * R.zy = 0
-  c13 : R.xx * R.xz + R.yx * R.yz + R.zx * R.zz = 0
-  c23 : R.xy * R.xz + R.yy * R.yz + R.zy * R.zz = 0
+/- `IsOrtho R` (`RᵀR = 1`), `det3`, `IsFrame R n` are defined in `Lemmas/Inside2DFrame.lean` -/
 
 /-- the rotation is an isometry: in-plane distances (hence the region and the point's position
 relative to it) are the same in the rotated frame -/
@@ -492,5 +486,653 @@ theorem ellipse_inside_fails_first_quadrant :
 
 theorem ellipse_batch (a b : ℝ) (c : V3 ℝ) (pts : List (V3 ℝ)) :
     Ellipse.isInside a b c pts = pts.map (Ellipse.isInside1 a b c) := rfl
+
+
+/-! ## Deepening round: certificates, triangulation-free theorems, the frame, the boundary -/
+
+open In2DCert
+
+/-! ### the triangulation certificate as a computable checker (run by the driver over ℚ) -/
+
+/-- **C06, polygons, certificate form over ℝ.**  `certCheck` (boundary chain by edge cancellation +
+consistent strict orientation) and `offCheck` are computable Boolean functions; when they return
+`true` the model's answer is the membership in the triangulated region. -/
+theorem polygon_inside_checked {vs : List (P2 ℝ)} {Ts : List (Tri2 ℝ)} {p : P2 ℝ}
+    (hc : certCheck vs Ts = true) (ho : offCheck Ts p = true) :
+    isInsideRot vs p = inRegion Ts p := by
+  unfold certCheck at hc
+  rw [Bool.and_eq_true] at hc
+  refine polygon_inside_iff (chainCheck_sound hc.1) ?_ ?_
+  · have h := hc.2
+    unfold orientedCheck at h
+    rw [Bool.or_eq_true, List.all_eq_true, List.all_eq_true] at h
+    rcases h with h | h
+    · left; intro t ht; simpa [Scalar.lit] using h t ht
+    · right; intro t ht; simpa [Scalar.lit] using h t ht
+  · unfold offCheck at ho
+    rw [List.all_eq_true] at ho
+    intro t ht; simpa using ho t ht
+
+/-- **C06, polygons, as the driver runs it.**  The checkers and the spec are evaluated at exact
+`ℚ` (every double is a rational) on the polygon's own vertices; if they accept, then the model
+OVER ℝ on the same (cast) data, the model over `ℚ` (driver op `Q poly.inside`) and the exact
+region test over `ℚ` (driver op `Q cert.region`) all agree. -/
+theorem polygon_inside_certified {vs : List (P2 ℚ)} {Ts : List (Tri2 ℚ)} {p : P2 ℚ}
+    (hc : certCheck vs Ts = true) (ho : offCheck Ts p = true) :
+    isInsideRot (vs.map castP) (castP p) = inRegion Ts p ∧ isInsideRot vs p = inRegion Ts p := by
+  unfold certCheck at hc
+  rw [Bool.and_eq_true] at hc
+  have h := polygon_inside_iff (chainCheck_sound_rat hc.1) (orientedCheck_sound_rat hc.2)
+    (offCheck_sound_rat ho)
+  rw [inRegion_cast] at h
+  exact ⟨h, by rw [← isInsideRot_cast]; exact h⟩
+
+/-- the certificate accepts the unit square with its two-triangle triangulation (exact evaluation
+    over ℚ), and the point (1/2, 1/3) is off the triangles' edges -/
+def unitSquareTsQ : List (Tri2 Rat) := [⟨⟨0, 0⟩, ⟨1, 0⟩, ⟨1, 1⟩⟩, ⟨⟨0, 0⟩, ⟨1, 1⟩, ⟨0, 1⟩⟩]
+def ellShapeTsQ : List (Tri2 Rat) :=
+  [⟨⟨0, 0⟩, ⟨2, 0⟩, ⟨2, 1⟩⟩, ⟨⟨0, 0⟩, ⟨2, 1⟩, ⟨1, 1⟩⟩, ⟨⟨0, 0⟩, ⟨1, 1⟩, ⟨1, 2⟩⟩, ⟨⟨0, 0⟩, ⟨1, 2⟩, ⟨0, 2⟩⟩]
+
+example : certCheck unitSquareQ unitSquareTsQ = true ∧ offCheck unitSquareTsQ ⟨1/2, 1/3⟩ = true := by
+  decide +kernel
+example : certCheck ellShapeQ ellShapeTsQ = true ∧ offCheck ellShapeTsQ ⟨3/2, 3/2⟩ = true ∧
+    certCheck ellShapeQ.reverse (ellShapeTsQ.map fun t => ⟨t.a, t.c, t.b⟩) = true := by decide +kernel
+/-- a wrong "triangulation" (one triangle missing) is rejected -/
+example : certCheck ellShapeQ ellShapeTsQ.tail = false := by decide +kernel
+example : isInsideRot (unitSquareQ.map castP) (castP ⟨1/2, 1/3⟩) = inRegion unitSquareTsQ ⟨1/2, 1/3⟩ :=
+  (polygon_inside_certified (by decide +kernel) (by decide +kernel)).1
+
+/-! ### triangulation-free theorems (any closed polygon) -/
+
+/-- **Every point strictly separated from all vertices by a line is classified outside** —
+for ANY closed polygon (convex or not, simple or not), no triangulation: points outside the convex
+hull of the vertices are never reported inside. -/
+theorem outside_of_separated (vs : List (P2 ℝ)) (p d : P2 ℝ)
+    (h : ∀ v ∈ vs, 0 < d.x * (v.x - p.x) + d.y * (v.y - p.y)) : isInsideRot vs p = false := by
+  have h0 := halfTurnSum_halfplane vs p d h
+  unfold isInsideRot windingNumber; rw [h0]; rfl
+
+example : isInsideRot unitSquare ⟨-1/2, 7⟩ = false :=
+  outside_of_separated unitSquare ⟨-1/2, 7⟩ ⟨1, 0⟩ (by
+    intro v hv
+    simp only [unitSquare, List.mem_cons, List.not_mem_nil, or_false] at hv
+    rcases hv with rfl | rfl | rfl | rfl <;> norm_num)
+
+/-- **Every point strictly left of all directed edges is classified inside** — for ANY closed
+polygon with at least one vertex (the winding number is then positive); no triangulation. -/
+theorem inside_of_leftOfAll {vs : List (P2 ℝ)} {p : P2 ℝ} (hne : vs ≠ [])
+    (h : leftOfAll vs p = true) : isInsideRot vs p = true ∧ 0 < windingNumber vs p := by
+  have hleft : ∀ e ∈ edges vs, 0 < orient e.1 e.2 p := by
+    unfold leftOfAll at h
+    rw [List.all_eq_true] at h
+    intro e he; simpa [Scalar.lit] using h e he
+  have hpos := halfTurnSum_pos_of_left hne hleft
+  have hoff : ∀ e ∈ edges vs, onSegment e.1 e.2 p = false := by
+    intro e he
+    unfold onSegment
+    rw [eqb_real]
+    have := hleft e he
+    simp only [Scalar.lit, Scalar.ofNat_real, Nat.cast_zero, Bool.and_eq_false_iff,
+      decide_eq_false_iff_not]
+    left; exact ne_of_gt this
+  obtain ⟨k, hk⟩ := halfTurnSum_even hoff
+  have hw : windingNumber vs p = k := by
+    unfold windingNumber; rw [hk, Int.fdiv_eq_ediv_of_nonneg _ (by decide)]; omega
+  have hkpos : 0 < k := by omega
+  refine ⟨?_, by rw [hw]; exact hkpos⟩
+  unfold isInsideRot; rw [hw]; simp only [bne_iff_ne, ne_eq]; omega
+
+/-! ### strictly convex polygons: no triangulation at all -/
+
+/-- **C06, convex polygons (counter-clockwise), no triangulation, no certificate about the
+point:** for a strictly convex polygon (`convexCheck`, computable) and every point not on its
+closed edges, the model's answer is "strictly left of every directed edge" — the definition of the
+interior of a convex polygon as the intersection of its edges' open half-planes. -/
+theorem convex_inside_iff {vs : List (P2 ℝ)} {p : P2 ℝ} (hc : convexCheck vs = true)
+    (hoff : onPolygon vs p = false) : isInsideRot vs p = leftOfAll vs p :=
+  convex_isInsideRot_eq hc hoff
+
+theorem onPolygon_false_iff (vs : List (P2 ℝ)) (p : P2 ℝ) :
+    onPolygon vs p = false ↔ ∀ e ∈ edges vs, onSegment e.1 e.2 p = false := by
+  unfold onPolygon; rw [List.any_eq_false]
+  constructor
+  · intro h e he; simpa using h e he
+  · intro h e he; simpa using h e he
+
+theorem onPolygon_reverse (vs : List (P2 ℝ)) (p : P2 ℝ) : onPolygon vs.reverse p = onPolygon vs p := by
+  rw [Bool.eq_iff_iff]
+  unfold onPolygon
+  simp only [List.any_eq_true]
+  constructor
+  · rintro ⟨e, he, h⟩
+    exact ⟨(e.2, e.1), (mem_edges_reverse vs e).mp he, by rw [onSegment_swap]; exact h⟩
+  · rintro ⟨e, he, h⟩
+    exact ⟨(e.2, e.1), (mem_edges_reverse vs (e.2, e.1)).mpr he, by rw [onSegment_swap]; exact h⟩
+
+theorem leftOfAll_reverse (vs : List (P2 ℝ)) (p : P2 ℝ) : leftOfAll vs.reverse p = rightOfAll vs p := by
+  rw [Bool.eq_iff_iff]
+  unfold leftOfAll rightOfAll
+  simp only [List.all_eq_true, decide_eq_true_eq, Scalar.lit, Scalar.ofNat_real, Nat.cast_zero]
+  constructor
+  · intro h e he
+    have := h (e.2, e.1) ((mem_edges_reverse vs (e.2, e.1)).mpr he)
+    simp only at this
+    rw [orient_swap] at this; linarith
+  · intro h e he
+    have := h (e.2, e.1) ((mem_edges_reverse vs e).mp he)
+    simp only at this
+    rw [orient_swap] at this; linarith
+
+/-- clockwise convex polygons: "strictly right of every directed edge" -/
+theorem convex_inside_iff_cw {vs : List (P2 ℝ)} {p : P2 ℝ} (hc : convexCheck vs.reverse = true)
+    (hoff : onPolygon vs p = false) : isInsideRot vs p = rightOfAll vs p := by
+  rw [← isInside_reverse ((onPolygon_false_iff vs p).mp hoff), ← leftOfAll_reverse]
+  exact convex_isInsideRot_eq hc (by rw [onPolygon_reverse]; exact hoff)
+
+/-- either orientation: the interior of the convex polygon -/
+theorem convex_inside_iff_any {vs : List (P2 ℝ)} {p : P2 ℝ}
+    (hc : convexCheck vs = true ∨ convexCheck vs.reverse = true)
+    (hoff : onPolygon vs p = false) : isInsideRot vs p = inConvex vs p := by
+  unfold inConvex
+  rcases hc with hc | hc
+  · have h1 := convex_inside_iff hc hoff
+    rw [h1]
+    cases hl : leftOfAll vs p
+    · rw [Bool.false_or]
+      symm; rw [Bool.eq_false_iff]
+      intro hr
+      have hne : vs.reverse ≠ [] := by
+        have := ((convexCheck_iff vs).mp hc).1
+        simpa using this
+      have h2 := (inside_of_leftOfAll hne (by rw [leftOfAll_reverse]; exact hr)).1
+      rw [isInside_reverse ((onPolygon_false_iff vs p).mp hoff), h1, hl] at h2
+      exact Bool.noConfusion h2
+    · rfl
+  · have h1 := convex_inside_iff_cw hc hoff
+    rw [h1]
+    cases hr : rightOfAll vs p
+    · rw [Bool.or_false]
+      symm; rw [Bool.eq_false_iff]
+      intro hl
+      have hne : vs ≠ [] := by
+        have := ((convexCheck_iff vs.reverse).mp hc).1
+        simpa using this
+      have h2 := (inside_of_leftOfAll hne hl).1
+      rw [h1, hr] at h2
+      exact Bool.noConfusion h2
+    · rw [Bool.or_true]
+
+
+/-- **Convex polygons as the driver runs it** (exact ℚ on the polygon's own vertices): if
+`convexCheck` accepts the vertex list (or its reverse) and the point is on no closed edge, the
+model over ℝ and the model over ℚ both equal `inConvex` evaluated over ℚ.  No triangulation is
+involved anywhere. -/
+theorem convex_inside_certified {vs : List (P2 ℚ)} {p : P2 ℚ}
+    (hc : (convexCheck vs || convexCheck vs.reverse) = true) (hoff : onPolygon vs p = false) :
+    isInsideRot (vs.map castP) (castP p) = inConvex vs p ∧ isInsideRot vs p = inConvex vs p := by
+  have hc' : convexCheck (vs.map castP) = true ∨ convexCheck (vs.map castP).reverse = true := by
+    rw [Bool.or_eq_true] at hc
+    rcases hc with h | h
+    · left; rw [convexCheck_cast]; exact h
+    · right; rw [← List.map_reverse, convexCheck_cast]; exact h
+  have h := convex_inside_iff_any hc' (by rw [onPolygon_cast]; exact hoff)
+  have e : inConvex (vs.map castP) (castP p) = inConvex vs p := by
+    unfold inConvex; rw [leftOfAll_cast, rightOfAll_cast]
+  rw [e] at h
+  exact ⟨h, by rw [← isInsideRot_cast]; exact h⟩
+
+/-- a hexagon whose centre lies on all three long diagonals — no triangulation without Steiner
+    points has the centre off its edges, yet the convex theorem applies (both orientations) -/
+def hexQ : List (P2 Rat) := [⟨2, 0⟩, ⟨1, 2⟩, ⟨-1, 2⟩, ⟨-2, 0⟩, ⟨-1, -2⟩, ⟨1, -2⟩]
+
+example : isInsideRot (hexQ.map castP) (castP ⟨0, 0⟩) = true ∧
+    isInsideRot (hexQ.reverse.map castP) (castP ⟨0, 0⟩) = true ∧
+    isInsideRot (hexQ.map castP) (castP ⟨3, 0⟩) = false ∧          -- on the line of no edge
+    isInsideRot (hexQ.map castP) (castP ⟨0, 4⟩) = false ∧          -- on the lines of two edges
+    isInsideRot (hexQ.map castP) (castP ⟨3, 2⟩) = false :=         -- on the line of the top edge
+  ⟨(convex_inside_certified (vs := hexQ) (p := ⟨0, 0⟩) (by decide +kernel) (by decide +kernel)).1.trans (by decide +kernel),
+   (convex_inside_certified (vs := hexQ.reverse) (p := ⟨0, 0⟩) (by decide +kernel) (by decide +kernel)).1.trans (by decide +kernel),
+   (convex_inside_certified (vs := hexQ) (p := ⟨3, 0⟩) (by decide +kernel) (by decide +kernel)).1.trans (by decide +kernel),
+   (convex_inside_certified (vs := hexQ) (p := ⟨0, 4⟩) (by decide +kernel) (by decide +kernel)).1.trans (by decide +kernel),
+   (convex_inside_certified (vs := hexQ) (p := ⟨3, 2⟩) (by decide +kernel) (by decide +kernel)).1.trans (by decide +kernel)⟩
+
+/-- the concave L hexagon is rejected by the convexity checker, in both orientations -/
+example : convexCheck ellShapeQ = false ∧ convexCheck ellShapeQ.reverse = false := by decide +kernel
+
+/-! ### the rotation into the `xy` plane: the answer is intrinsic -/
+
+/-- 3-D triangle ↦ its image in the rotated frame -/
+abbrev projP (R : M3 ℝ) (v : V3 ℝ) : P2 ℝ := proj (rotate R v)
+
+/-- **C06, polygons embedded in any plane of 3-space.**  `R` is ANY matrix satisfying the Kabsch
+contract for the stored normal `n` (`RᵀR = 1`, `det R = 1`, `R n = ẑ`); `Ts` is a triangulation in
+space whose boundary chain is the polygon, consistently oriented as seen along `n`; `p` projects
+onto none of the triangles' closed edges.  Then the model of `Polygon.is_inside` (rotate vertices
+and point with `R`, drop `z`, winding number) returns the INTRINSIC membership `inRegion3 n Ts p` —
+whatever admissible `R` Kabsch produced, for normals `+ẑ`, `−ẑ` (clockwise vertices, reflex first
+corner, explicit normal) or tilted. -/
+theorem polygon_inside3_iff {R : M3 ℝ} {n : V3 ℝ} (hR : IsFrame R n) {verts : List (V3 ℝ)}
+    {Ts : List (Tri3 ℝ)} {p : V3 ℝ}
+    (hchain : EdgeChainEq3 (edges verts) (Ts.flatMap Tri3.bdry))
+    (hor : (∀ t ∈ Ts, 0 < orient3 n t.a t.b t.c) ∨ (∀ t ∈ Ts, orient3 n t.a t.b t.c < 0))
+    (hoff : ∀ t ∈ Ts, onBoundary3 n t p = false) :
+    Polygon.isInside R verts [p] = [inRegion3 n Ts p] := by
+  rw [polygon_isInside_eq_map]
+  simp only [List.map_cons, List.map_nil, List.cons.injEq, and_true]
+  rw [← inRegion_rotate hR]
+  apply polygon_inside_iff
+  · have h := hchain.project (projP R)
+    rw [flatMap_bdry_project] at h
+    have e : edges (verts.map fun v => proj (rotate R v)) =
+        (edges verts).map fun e => (projP R e.1, projP R e.2) := edges_map _ _
+    rw [e]; exact h
+  · rcases hor with h | h
+    · left; intro t ht
+      obtain ⟨s, hs, rfl⟩ := List.mem_map.mp ht
+      show 0 < orient (projP R s.a) (projP R s.b) (projP R s.c)
+      rw [orient_rotate hR]; exact h s hs
+    · right; intro t ht
+      obtain ⟨s, hs, rfl⟩ := List.mem_map.mp ht
+      show orient (projP R s.a) (projP R s.b) (projP R s.c) < 0
+      rw [orient_rotate hR]; exact h s hs
+  · intro t ht
+    obtain ⟨s, hs, rfl⟩ := List.mem_map.mp ht
+    rw [onBoundary_rotate hR]; exact hoff s hs
+
+/-- **The answer does not depend on the frame Kabsch returns, nor on the sign of the stored
+normal**: two frames, one for `n` and one for `−n` (or both for `n`), give the same result. -/
+theorem polygon_inside_frame_indep {R R' : M3 ℝ} {n : V3 ℝ} (hR : IsFrame R n)
+    (hR' : IsFrame R' n ∨ IsFrame R' (-n)) {verts : List (V3 ℝ)} {Ts : List (Tri3 ℝ)} {p : V3 ℝ}
+    (hchain : EdgeChainEq3 (edges verts) (Ts.flatMap Tri3.bdry))
+    (hor : (∀ t ∈ Ts, 0 < orient3 n t.a t.b t.c) ∨ (∀ t ∈ Ts, orient3 n t.a t.b t.c < 0))
+    (hoff : ∀ t ∈ Ts, onBoundary3 n t p = false) :
+    Polygon.isInside R verts [p] = Polygon.isInside R' verts [p] := by
+  rw [polygon_inside3_iff hR hchain hor hoff]
+  rcases hR' with h | h
+  · rw [polygon_inside3_iff h hchain hor hoff]
+  · have hor' : (∀ t ∈ Ts, 0 < orient3 (-n) t.a t.b t.c) ∨ (∀ t ∈ Ts, orient3 (-n) t.a t.b t.c < 0) := by
+      rcases hor with h1 | h1
+      · right; intro t ht; rw [orient3_neg]; linarith [h1 t ht]
+      · left; intro t ht; rw [orient3_neg]; linarith [h1 t ht]
+    have hoff' : ∀ t ∈ Ts, onBoundary3 (-n) t p = false := by
+      intro t ht
+      have := hoff t ht
+      unfold onBoundary3 onSegment3 dot3 at this ⊢
+      simp only [orient3_neg, eqb_real, Scalar.lit, Scalar.ofNat_real, Nat.cast_zero, neg_eq_zero] at this ⊢
+      have e : ∀ u v : V3 ℝ, V3.dot (-n) u * V3.dot (-n) v = V3.dot n u * V3.dot n v := by
+        intro u v; unfold V3.dot; simp only [V3.neg_x, V3.neg_y, V3.neg_z]; ring
+      simp only [e]; exact this
+    rw [polygon_inside3_iff h hchain hor' hoff', inRegion3_neg]
+
+/-- `(N,2)` points are the points `(x, y, 0)` of space, whatever the polygon's plane and normal -/
+theorem polygon_inside2_iff {R : M3 ℝ} {n : V3 ℝ} (hR : IsFrame R n) {verts : List (V3 ℝ)}
+    {Ts : List (Tri3 ℝ)} {q : P2 ℝ}
+    (hchain : EdgeChainEq3 (edges verts) (Ts.flatMap Tri3.bdry))
+    (hor : (∀ t ∈ Ts, 0 < orient3 n t.a t.b t.c) ∨ (∀ t ∈ Ts, orient3 n t.a t.b t.c < 0))
+    (hoff : ∀ t ∈ Ts, onBoundary3 n t ⟨q.x, q.y, 0⟩ = false) :
+    Polygon.isInside2 R verts [q] = [inRegion3 n Ts ⟨q.x, q.y, 0⟩] := by
+  rw [polygon_isInside2_eq]
+  exact polygon_inside3_iff hR hchain hor hoff
+
+/-- the two matrices Kabsch returns for the normals `+ẑ` and `−ẑ` are frames -/
+theorem frame_plus_z : IsFrame (⟨1, 0, 0, 0, 1, 0, 0, 0, 1⟩ : M3 ℝ) ⟨0, 0, 1⟩ := by
+  refine ⟨⟨?_, ?_, ?_, ?_, ?_, ?_⟩, ?_, ?_⟩ <;> norm_num [det3, rotate]
+theorem frame_minus_z : IsFrame (⟨-1, 0, 0, 0, 1, 0, 0, 0, -1⟩ : M3 ℝ) ⟨0, 0, -1⟩ := by
+  refine ⟨⟨?_, ?_, ?_, ?_, ?_, ?_⟩, ?_, ?_⟩ <;> norm_num [det3, rotate]
+
+/-- the normal `Polygon.__init__` computes from the first three vertices of a polygon in the
+plane `z = const` is `(0, 0, orient v₀ v₁ v₂)`: it points to `−ẑ` exactly when the first corner
+turns right (clockwise vertices, or a reflex first corner of a counter-clockwise polygon) -/
+theorem normalDir_planar (a b c : P2 ℝ) (z : ℝ) :
+    Polygon.normalDir ⟨a.x, a.y, z⟩ ⟨b.x, b.y, z⟩ ⟨c.x, c.y, z⟩ = ⟨0, 0, orient a b c⟩ := by
+  unfold Polygon.normalDir V3.cross orient
+  ext
+  · simp
+  · simp
+  · simp; ring
+
+/-- the unit square in the plane `z = 2` seen with the normal `−ẑ`: hypotheses of
+    `polygon_inside3_iff` are satisfiable (chain by cancellation of the diagonal) -/
+def sq3 : List (V3 ℝ) := [⟨0, 0, 2⟩, ⟨1, 0, 2⟩, ⟨1, 1, 2⟩, ⟨0, 1, 2⟩]
+def sq3Ts : List (Tri3 ℝ) := [⟨⟨0, 0, 2⟩, ⟨1, 0, 2⟩, ⟨1, 1, 2⟩⟩, ⟨⟨0, 0, 2⟩, ⟨1, 1, 2⟩, ⟨0, 1, 2⟩⟩]
+
+theorem sq3_chain : EdgeChainEq3 (edges sq3) (sq3Ts.flatMap Tri3.bdry) := by
+  intro G _ φ hφ
+  simp only [sq3, sq3Ts, edges, roll, Tri3.bdry, List.zip_cons_cons, List.zip_nil_right,
+    List.cons_append, List.nil_append, List.flatMap_cons, List.flatMap_nil, List.append_nil,
+    esum_cons, esum_nil]
+  rw [hφ ⟨0, 0, 2⟩ ⟨1, 1, 2⟩]; abel
+
+example : Polygon.isInside ⟨-1, 0, 0, 0, 1, 0, 0, 0, -1⟩ sq3 [⟨1/2, 1/3, 2⟩] =
+    [inRegion3 ⟨0, 0, -1⟩ sq3Ts ⟨1/2, 1/3, 2⟩] :=
+  polygon_inside3_iff frame_minus_z sq3_chain (Or.inr (by
+    intro t ht
+    simp only [sq3Ts, List.mem_cons, List.not_mem_nil, or_false] at ht
+    rcases ht with rfl | rfl <;> norm_num [orient3, V3.dot, V3.cross])) (by
+    intro t ht
+    simp only [sq3Ts, List.mem_cons, List.not_mem_nil, or_false] at ht
+    rcases ht with rfl | rfl <;>
+      simp only [onBoundary3, onSegment3, orient3, dot3, V3.dot, V3.cross, eqb_real, Scalar.lit,
+        Scalar.ofNat_real, V3.sub_x, V3.sub_y, V3.sub_z] <;> norm_num)
+
+/-! ### argument handling of `is_inside` -/
+
+/-- `(N,3)` input: the rows are the points -/
+theorem polygon_arg_N3 (R : M3 ℝ) (verts : List (V3 ℝ)) (rows : List (List ℝ)) :
+    Polygon.isInsideArg R verts ⟨3, rows⟩ = .ok (Polygon.isInside R verts (rows.map Polygon.rowV3)) := rfl
+
+/-- `(N,2)` input: padded with `z = 0`, then rotated like every other point -/
+theorem polygon_arg_N2 (R : M3 ℝ) (verts : List (V3 ℝ)) (rows : List (List ℝ)) :
+    Polygon.isInsideArg R verts ⟨2, rows⟩ =
+      .ok (Polygon.isInside R verts (rows.map fun r => ⟨(Polygon.rowP2 r).x, (Polygon.rowP2 r).y, 0⟩)) := by
+  unfold Polygon.isInsideArg
+  simp only [if_true]
+  rw [polygon_isInside2_eq, List.map_map]; rfl
+
+/-- any other width raises `ValueError` -/
+theorem polygon_arg_other (R : M3 ℝ) (verts : List (V3 ℝ)) (w : Nat) (rows : List (List ℝ))
+    (h2 : w ≠ 2) (h3 : w ≠ 3) : Polygon.isInsideArg R verts ⟨w, rows⟩ = .error "ValueError" := by
+  unfold Polygon.isInsideArg; simp only [h2, h3, if_false]
+
+/-- a single `(3,)` or `(2,)` point is the batch of one; a batch is the map of the single-point
+    answers (in particular the order and number of results is that of the rows) -/
+theorem polygon_arg_batch (R : M3 ℝ) (verts : List (V3 ℝ)) (rows : List (List ℝ)) :
+    Polygon.isInsideArg R verts ⟨3, rows⟩ =
+      .ok (rows.map fun r => isInsideRot (verts.map fun v => proj (rotate R v))
+        (proj (rotate R (Polygon.rowV3 r)))) := by
+  rw [polygon_arg_N3, polygon_isInside_eq_map, List.map_map]; rfl
+
+theorem circle_arg_N3 (r : ℝ) (c : V3 ℝ) (rows : List (List ℝ)) :
+    Circle.isInsideArg r c ⟨3, rows⟩ = .ok (rows.map fun row => Circle.isInside1 r c (Polygon.rowV3 row)) := by
+  unfold Circle.isInsideArg Circle.isInside; simp only [if_true, List.map_map]; rfl
+
+/-- `(N,2)` points are NOT accepted by circles and ellipses (broadcasting `(N,2) − (3,)` fails) -/
+theorem circle_arg_N2 (r : ℝ) (c : V3 ℝ) (rows : List (List ℝ)) :
+    Circle.isInsideArg r c ⟨2, rows⟩ = .error "ValueError" := rfl
+theorem ellipse_arg_N2 (a b : ℝ) (c : V3 ℝ) (rows : List (List ℝ)) :
+    Ellipse.isInsideArg a b c ⟨2, rows⟩ = .error "ValueError" := rfl
+theorem ellipse_arg_N3 (a b : ℝ) (c : V3 ℝ) (rows : List (List ℝ)) :
+    Ellipse.isInsideArg a b c ⟨3, rows⟩ =
+      .ok (rows.map fun row => Ellipse.isInside1 a b c (Polygon.rowV3 row)) := by
+  unfold Ellipse.isInsideArg Ellipse.isInside; simp only [if_true, List.map_map]; rfl
+
+/-- a point further than `1e-8` from the ellipse's plane is never inside, and within the plane
+    the centre enters only through `p − c` (`ellipse_inside_is_box`) -/
+theorem ellipse_out_of_plane (a b : ℝ) (c p : V3 ℝ) (hz : 1 / 100000000 < |p.z - c.z|) :
+    Ellipse.isInside1 a b c p = false := by
+  unfold Ellipse.isInside1
+  have : iscloseZero (p.z - c.z) = false := by
+    rw [Bool.eq_false_iff, Ne, iscloseZero_iff]; exact not_le.mpr hz
+  simp only [V3.sub_z]
+  rw [this, Bool.and_false]
+
+/-- translation covariance of the coded ellipse test (centre handling): moving centre and point
+    together changes nothing -/
+theorem ellipse_translate (a b : ℝ) (c p t : V3 ℝ) :
+    Ellipse.isInside1 a b (c + t) (p + t) = Ellipse.isInside1 a b c p := by
+  unfold Ellipse.isInside1
+  simp only [V3.sub_x, V3.sub_y, V3.sub_z, V3.add_x, V3.add_y, V3.add_z, add_sub_add_right_eq_sub]
+  rfl
+
+theorem circle_translate (r : ℝ) (c p t : V3 ℝ) :
+    Circle.isInside1 r c (p + t) = Circle.isInside1 r (c - t) p := by
+  unfold Circle.isInside1
+  have e : p + t - c = p - (c - t) := by ext <;> simp <;> ring
+  rw [e]
+
+/-! ### points exactly on the boundary (tie rule of the model; the property is silent there) -/
+
+/-- both edges meeting at a vertex contribute `0` when the query point IS that vertex -/
+theorem vertex_terms_vanish (p a b : P2 ℝ) : halfTurn p a p = 0 ∧ halfTurn p p b = 0 :=
+  ⟨halfTurn_vertex_end p a, halfTurn_vertex_start p b⟩
+
+/-- an edge whose line contains the query point contributes `0` -/
+theorem collinear_term_vanishes {p a b : P2 ℝ} (h : orient a b p = 0) : halfTurn p a b = 0 :=
+  halfTurn_on_line h
+
+/-- **tie rule on an open edge, counter-clockwise triangle:** the sum is `+1`, `1 // 2 = 0`:
+    reported OUTSIDE -/
+theorem on_edge_ccw_false {a b c p : P2 ℝ} (hpos : 0 < orient a b c) (hcol : orient a b p = 0)
+    (hin : dot2 a b p < 0) : halfTurnSum [a, b, c] p = 1 ∧ isInsideRot [a, b, c] p = false := by
+  have h := triangle_on_edge_sum hpos hcol hin
+  have hs : halfTurnSum [a, b, c] p = 1 := by
+    unfold halfTurnSum edges roll
+    simp only [List.cons_append, List.nil_append, List.zip_cons_cons, List.zip_nil_right, List.map_cons,
+      List.map_nil, List.sum_cons, List.sum_nil]
+    omega
+  refine ⟨hs, ?_⟩
+  unfold isInsideRot windingNumber; rw [hs]; decide
+
+/-- **tie rule on an open edge, clockwise triangle:** the sum is `−1`, `−1 // 2 = −1 ≠ 0`
+    (floor division): reported INSIDE.  So the docstring's "points on the boundary return False"
+    holds only for polygons that are counter-clockwise in the rotated frame. -/
+theorem on_edge_cw_true {a b c p : P2 ℝ} (hpos : 0 < orient a b c) (hcol : orient a b p = 0)
+    (hin : dot2 a b p < 0) : halfTurnSum [a, c, b] p = -1 ∧ isInsideRot [a, c, b] p = true := by
+  have h := triangle_on_edge_sum_neg hpos hcol hin
+  have hs : halfTurnSum [a, c, b] p = -1 := by
+    unfold halfTurnSum edges roll
+    simp only [List.cons_append, List.nil_append, List.zip_cons_cons, List.zip_nil_right, List.map_cons,
+      List.map_nil, List.sum_cons, List.sum_nil]
+    omega
+  refine ⟨hs, ?_⟩
+  unfold isInsideRot windingNumber; rw [hs]; decide
+
+/-- **tie rule on an open boundary edge of a triangulated polygon** (counter-clockwise): if the
+edge `(a, b)` carrying the point belongs to the triangle `⟨a, b, c⟩` and the point is on no closed
+edge of the OTHER triangles, the half-turn sum is `1 + 2·count`, so the model answers `False`
+unless another triangle contains the point (impossible for a genuine triangulation). -/
+theorem polygon_on_edge_ccw {vs : List (P2 ℝ)} {Ts : List (Tri2 ℝ)} {a b c p : P2 ℝ}
+    (hchain : EdgeChainEq (edges vs) ((⟨a, b, c⟩ :: Ts).flatMap Tri2.bdry))
+    (hpos0 : 0 < orient a b c) (hpos : ∀ t ∈ Ts, 0 < orient t.a t.b t.c)
+    (hcol : orient a b p = 0) (hin : dot2 a b p < 0)
+    (hoff : ∀ t ∈ Ts, onBoundary t p = false) :
+    halfTurnSum vs p = 1 + 2 * (count Ts p : Int) ∧ isInsideRot vs p = inRegion Ts p := by
+  have hs : halfTurnSum vs p = 1 + 2 * (count Ts p : Int) := by
+    rw [winding_additive p hchain, List.map_cons, List.sum_cons, triangle_on_edge_sum hpos0 hcol hin,
+      ← sum_ite_count]
+    congr 2
+    exact List.map_congr_left fun t ht => winding_triangle t p (hpos t ht) (hoff t ht)
+  refine ⟨hs, ?_⟩
+  rw [Bool.eq_iff_iff, inRegion_iff_count]
+  unfold isInsideRot windingNumber
+  rw [hs, Int.fdiv_eq_ediv_of_nonneg _ (by decide)]
+  simp only [bne_iff_ne, ne_eq]
+  omega
+
+/-- the clockwise counterpart: the sum is `−1 − 2·count`, the model answers `True` -/
+theorem polygon_on_edge_cw {vs : List (P2 ℝ)} {Ts : List (Tri2 ℝ)} {a b c p : P2 ℝ}
+    (hchain : EdgeChainEq (edges vs) ((⟨a, c, b⟩ :: Ts).flatMap Tri2.bdry))
+    (hpos0 : 0 < orient a b c) (hneg : ∀ t ∈ Ts, orient t.a t.b t.c < 0)
+    (hcol : orient a b p = 0) (hin : dot2 a b p < 0)
+    (hoff : ∀ t ∈ Ts, onBoundary t p = false) :
+    halfTurnSum vs p = -1 - 2 * (count Ts p : Int) ∧ isInsideRot vs p = true := by
+  have hs : halfTurnSum vs p = -1 - 2 * (count Ts p : Int) := by
+    rw [winding_additive p hchain, List.map_cons, List.sum_cons,
+      triangle_on_edge_sum_neg hpos0 hcol hin]
+    have : (Ts.map fun t => halfTurn p t.a t.b + halfTurn p t.b t.c + halfTurn p t.c t.a).sum =
+        -2 * (count Ts p : Int) := by
+      rw [← sum_ite_count]
+      congr 1
+      exact List.map_congr_left fun t ht => winding_triangle_neg t p (hneg t ht) (hoff t ht)
+    rw [this]; ring
+  refine ⟨hs, ?_⟩
+  unfold isInsideRot windingNumber
+  rw [hs, Int.fdiv_eq_ediv_of_nonneg _ (by decide)]
+  simp only [bne_iff_ne, ne_eq]
+  omega
+
+/-- exact evaluations: boundary points of the unit square in both orientations, and a vertex -/
+example : isInsideRot unitSquareQ ⟨1, 1/2⟩ = false ∧ isInsideRot unitSquareQ.reverse ⟨1, 1/2⟩ = true ∧
+    isInsideRot unitSquareQ ⟨1/2, 0⟩ = false ∧ isInsideRot unitSquareQ.reverse ⟨1/2, 0⟩ = true ∧
+    isInsideRot unitSquareQ ⟨0, 0⟩ = false ∧ isInsideRot unitSquareQ.reverse ⟨0, 0⟩ = false ∧
+    isInsideRot unitSquareQ ⟨1, 1⟩ = false ∧ isInsideRot unitSquareQ.reverse ⟨1, 1⟩ = false := by
+  decide +kernel
+
+example : (0 : ℝ) < orient (⟨0, 0⟩ : P2 ℝ) ⟨4, 0⟩ ⟨0, 4⟩ ∧ orient (⟨0, 0⟩ : P2 ℝ) ⟨4, 0⟩ ⟨1, 0⟩ = 0 ∧
+    dot2 (⟨0, 0⟩ : P2 ℝ) ⟨4, 0⟩ ⟨1, 0⟩ < 0 := by
+  refine ⟨?_, ?_, ?_⟩ <;> norm_num [orient, dot2]
+
+
+/-! ### winding number and the even–odd rule (any closed polygon) -/
+
+/-- **The winding number computed by `Polygon.is_inside` and the crossing number of the even–odd
+rule have the same parity** — for EVERY closed polygon (simple or not, any orientation) and every
+point off its closed edges.  No triangulation. -/
+theorem winding_parity_crossing {vs : List (P2 ℝ)} {p : P2 ℝ} (hoff : onPolygon vs p = false) :
+    windingNumber vs p % 2 = (crossNumber vs p : Int) % 2 := by
+  obtain ⟨k, hk⟩ := halfTurnSum_crossNumber ((onPolygon_false_iff vs p).mp hoff)
+  unfold windingNumber
+  rw [hk, Int.fdiv_eq_ediv_of_nonneg _ (by decide)]
+  omega
+
+/-- hence, whenever the winding number is `−1`, `0` or `1` (as it is for every simple polygon; a
+condition on the model's own integer output that the driver evaluates per point), the model's
+answer IS the even–odd rule. -/
+theorem inside_eq_evenOdd {vs : List (P2 ℝ)} {p : P2 ℝ} (hoff : onPolygon vs p = false)
+    (hsmall : -1 ≤ windingNumber vs p ∧ windingNumber vs p ≤ 1) :
+    isInsideRot vs p = evenOdd vs p := by
+  have h := winding_parity_crossing hoff
+  unfold isInsideRot evenOdd
+  rw [Bool.eq_iff_iff]
+  simp only [bne_iff_ne, ne_eq, beq_iff_eq]
+  omega
+
+/-- the same as the driver runs it (exact ℚ on the polygon's own vertices) -/
+theorem inside_eq_evenOdd_certified {vs : List (P2 ℚ)} {p : P2 ℚ} (hoff : onPolygon vs p = false)
+    (hsmall : -1 ≤ windingNumber vs p ∧ windingNumber vs p ≤ 1) :
+    isInsideRot (vs.map castP) (castP p) = evenOdd vs p ∧ isInsideRot vs p = evenOdd vs p := by
+  have hw : windingNumber (vs.map castP) (castP p) = windingNumber vs p := by
+    unfold windingNumber; rw [halfTurnSum_cast]
+  have h := inside_eq_evenOdd (vs := vs.map castP) (p := castP p) (by rw [onPolygon_cast]; exact hoff)
+    (by rw [hw]; exact hsmall)
+  rw [evenOdd_cast] at h
+  exact ⟨h, by rw [← isInsideRot_cast]; exact h⟩
+
+example : isInsideRot (ellShapeQ.map castP) (castP ⟨1, 1/2⟩) = evenOdd ellShapeQ ⟨1, 1/2⟩ ∧
+    evenOdd ellShapeQ ⟨1, 1/2⟩ = true ∧ evenOdd ellShapeQ ⟨3/2, 3/2⟩ = false :=
+  ⟨(inside_eq_evenOdd_certified (vs := ellShapeQ) (p := ⟨1, 1/2⟩) (by decide +kernel) (by decide +kernel)).1,
+   by decide +kernel, by decide +kernel⟩
+
+/-- a doubly wound square (winding number 2, crossing number 2): the parity statement holds, the
+    model says "inside", the even–odd rule says "outside" — the hypothesis `|winding| ≤ 1` of
+    `inside_eq_evenOdd` cannot be dropped -/
+example : windingNumber (unitSquareQ ++ unitSquareQ) ⟨1/2, 1/3⟩ = 2 ∧
+    crossNumber (unitSquareQ ++ unitSquareQ) ⟨1/2, 1/3⟩ = 2 ∧
+    isInsideRot (unitSquareQ ++ unitSquareQ) ⟨1/2, 1/3⟩ = true ∧
+    evenOdd (unitSquareQ ++ unitSquareQ) ⟨1/2, 1/3⟩ = false := by decide +kernel
+
+
+/-! ### polygons parallel to the `xy` plane, either normal, any admissible frame, `(N,3)` and `(N,2)`
+    points — with the driver-checked certificate -/
+
+/-- the point `(x, y, z₀)` of the plane `z = z₀` -/
+def liftZ (z0 : ℝ) (q : P2 ℝ) : V3 ℝ := ⟨q.x, q.y, z0⟩
+def liftT (z0 : ℝ) (t : Tri2 ℝ) : Tri3 ℝ := ⟨liftZ z0 t.a, liftZ z0 t.b, liftZ z0 t.c⟩
+
+theorem chain_lift {E F : List Edge2} (h : EdgeChainEq E F) (g : P2 ℝ → V3 ℝ) :
+    EdgeChainEq3 (E.map fun e => (g e.1, g e.2)) (F.map fun e => (g e.1, g e.2)) := by
+  intro G _ φ hφ
+  have := h G (fun e => φ (g e.1, g e.2)) (fun a b => hφ (g a) (g b))
+  simpa [esum, List.map_map, Function.comp_def] using this
+
+theorem flatMap_bdry_lift (z0 : ℝ) (Ts : List (Tri2 ℝ)) :
+    (Ts.flatMap Tri2.bdry).map (fun e => (liftZ z0 e.1, liftZ z0 e.2)) =
+      (Ts.map (liftT z0)).flatMap Tri3.bdry := by
+  induction Ts with
+  | nil => rfl
+  | cons T Ts ih =>
+    simp only [List.flatMap_cons, List.map_append, List.map_cons, ih]
+    rfl
+
+theorem orient3_lift (s z0 : ℝ) (a b p : P2 ℝ) :
+    orient3 ⟨0, 0, s⟩ (liftZ z0 a) (liftZ z0 b) (liftZ z0 p) = s * orient a b p := by
+  unfold orient3 orient liftZ V3.dot V3.cross
+  simp only [V3.sub_x, V3.sub_y, V3.sub_z]; ring
+
+theorem dot3_lift (s z0 : ℝ) (a b p : P2 ℝ) :
+    dot3 ⟨0, 0, s⟩ (liftZ z0 a) (liftZ z0 b) (liftZ z0 p) = dot2 a b p := by
+  unfold dot3 dot2 liftZ V3.dot
+  simp only [V3.sub_x, V3.sub_y, V3.sub_z]; ring
+
+theorem inTriangle3_lift {s : ℝ} (hs : s = 1 ∨ s = -1) (z0 : ℝ) (t : Tri2 ℝ) (p : P2 ℝ) :
+    inTriangle3 ⟨0, 0, s⟩ (liftT z0 t) (liftZ z0 p) = inTriangle t p := by
+  unfold inTriangle3 inTriangle liftT
+  simp only [orient3_lift, Scalar.lit, Scalar.ofNat_real, Nat.cast_zero]
+  rcases hs with rfl | rfl
+  · simp only [one_mul]
+  · simp only [neg_mul, one_mul, Left.neg_pos_iff, Left.neg_neg_iff]
+    rw [Bool.or_comm]
+
+theorem onBoundary3_lift {s : ℝ} (hs : s = 1 ∨ s = -1) (z0 : ℝ) (t : Tri2 ℝ) (p : P2 ℝ) :
+    onBoundary3 ⟨0, 0, s⟩ (liftT z0 t) (liftZ z0 p) = onBoundary t p := by
+  unfold onBoundary3 onBoundary onSegment3 onSegment liftT
+  simp only [orient3_lift, dot3_lift, eqb_real, Scalar.lit, Scalar.ofNat_real, Nat.cast_zero]
+  rcases hs with rfl | rfl
+  · simp only [one_mul]
+  · simp only [neg_mul, one_mul, neg_eq_zero]
+
+/-- **C06 for polygons parallel to the `xy` plane, as the driver certifies it.**  `vs`, `Ts`, `p`
+are the exact rational in-plane coordinates; `certCheck` / `offCheck` are the computable checkers
+(run over ℚ); the polygon lies in the plane `z = z₀`; the stored normal is `(0, 0, s)` with
+`s = ±1` (`−1`: clockwise vertices, reflex first corner or an explicit opposite normal); `R` is ANY
+matrix satisfying the Kabsch contract for that normal.  Then `Polygon.is_inside` on the `(N,3)`
+point `(p, z₀)` returns the exact membership `inRegion Ts p`. -/
+theorem polygon_inside_xy_certified {vs : List (P2 ℚ)} {Ts : List (Tri2 ℚ)} {p : P2 ℚ}
+    (hc : certCheck vs Ts = true) (ho : offCheck Ts p = true) (z0 : ℝ) {s : ℝ} (hs : s = 1 ∨ s = -1)
+    {R : M3 ℝ} (hR : IsFrame R ⟨0, 0, s⟩) :
+    Polygon.isInside R (vs.map fun v => liftZ z0 (castP v)) [liftZ z0 (castP p)] = [inRegion Ts p] := by
+  unfold certCheck at hc
+  rw [Bool.and_eq_true] at hc
+  have hchain := chainCheck_sound_rat hc.1
+  have hor := orientedCheck_sound_rat hc.2
+  have hoff := offCheck_sound_rat ho
+  have h3 := polygon_inside3_iff hR (verts := vs.map fun v => liftZ z0 (castP v))
+    (Ts := (Ts.map castT).map (liftT z0)) (p := liftZ z0 (castP p))
+    (by
+      have h := chain_lift hchain (liftZ z0)
+      rw [flatMap_bdry_lift] at h
+      have e : edges (vs.map fun v => liftZ z0 (castP v)) =
+          (edges (vs.map castP)).map fun e => (liftZ z0 e.1, liftZ z0 e.2) := by
+        rw [← edges_map (liftZ z0), List.map_map]; rfl
+      rw [e]; exact h)
+    (by
+      have sgn : ∀ t : Tri2 ℝ, orient3 ⟨0, 0, s⟩ (liftT z0 t).a (liftT z0 t).b (liftT z0 t).c =
+          s * orient t.a t.b t.c := fun t => orient3_lift s z0 t.a t.b t.c
+      rcases hs with rfl | rfl
+      · rcases hor with h | h
+        · left; intro t ht; obtain ⟨u, hu, rfl⟩ := List.mem_map.mp ht; rw [sgn]; linarith [h u hu]
+        · right; intro t ht; obtain ⟨u, hu, rfl⟩ := List.mem_map.mp ht; rw [sgn]; linarith [h u hu]
+      · rcases hor with h | h
+        · right; intro t ht; obtain ⟨u, hu, rfl⟩ := List.mem_map.mp ht; rw [sgn]; linarith [h u hu]
+        · left; intro t ht; obtain ⟨u, hu, rfl⟩ := List.mem_map.mp ht; rw [sgn]; linarith [h u hu])
+    (by
+      intro t ht
+      obtain ⟨u, hu, rfl⟩ := List.mem_map.mp ht
+      rw [onBoundary3_lift hs]; exact hoff u hu)
+  rw [h3]
+  congr 1
+  unfold inRegion3
+  rw [List.any_map]
+  have : ((fun t => inTriangle3 ⟨0, 0, s⟩ t (liftZ z0 (castP p))) ∘ liftT z0) =
+      fun t => inTriangle t (castP p) := by
+    funext t; exact inTriangle3_lift hs z0 t (castP p)
+  rw [this]
+  exact inRegion_cast Ts p
+
+/-- … and `(N,2)` points `(x, y)` are the points `(x, y, 0)`: for a polygon in the plane `z = 0`
+with either normal the `(N,2)` call returns the exact membership too (this is the statement that
+fails if the `(N,2)` path skips the rotation: for `s = −1` every admissible `R` mirrors `x`). -/
+theorem polygon_inside_xy_N2_certified {vs : List (P2 ℚ)} {Ts : List (Tri2 ℚ)} {p : P2 ℚ}
+    (hc : certCheck vs Ts = true) (ho : offCheck Ts p = true) {s : ℝ} (hs : s = 1 ∨ s = -1)
+    {R : M3 ℝ} (hR : IsFrame R ⟨0, 0, s⟩) :
+    Polygon.isInside2 R (vs.map fun v => liftZ 0 (castP v)) [castP p] = [inRegion Ts p] := by
+  rw [polygon_isInside2_eq]
+  exact polygon_inside_xy_certified hc ho 0 hs hR
+
+example : Polygon.isInside2 ⟨-1, 0, 0, 0, 1, 0, 0, 0, -1⟩ (ellShapeQ.map fun v => liftZ 0 (castP v))
+    [castP ⟨3/2, 1/2⟩] = [true] :=
+  (polygon_inside_xy_N2_certified (vs := ellShapeQ) (Ts := ellShapeTsQ) (p := ⟨3/2, 1/2⟩)
+    (by decide +kernel) (by decide +kernel) (Or.inr rfl) frame_minus_z).trans (by
+      congr 1; decide +kernel)
 
 end
